@@ -1392,10 +1392,13 @@ func c20CheckDeliveries(o *c20Out, ds []c20Desc, sent map[byte][][]byte, events 
 
 // c20EmptyDropped reports whether got equals sent with some zero-length messages removed, and
 // the index (in sent) of the first removed one.
-func c20EmptyDropped(sent, got [][]byte) (bool, int) {
+func c20EmptyDropped(sent, got [][]byte, needAll bool) (bool, int) {
 	first := -1
 	j := 0
 	for i, m := range sent {
+		if j == len(got) && !needAll {
+			break
+		}
 		if j < len(got) && bytes.Equal(m, got[j]) {
 			j++
 			continue
@@ -1419,9 +1422,10 @@ func c20CheckDeliveriesQ(o *c20Out, ds []c20Desc, sent map[byte][][]byte, events
 	fail := func(class, detail string) { o.Fail(0, class, detail) }
 	for _, d := range ds {
 		s, g := sent[d.id], got[d.id]
-		if family == "empty-msg-lost" && complete && cls == "eof" && len(g) < len(s) {
-			// known finding: the only tolerated discrepancy is zero-length messages missing
-			if ok, first := c20EmptyDropped(s, g); ok {
+		if family == "empty-msg-lost" && complete {
+			// known finding: the only tolerated discrepancy is zero-length messages missing (when the
+			// receiver stopped on an error, the deliveries are a prefix of such a sequence)
+			if ok, first := c20EmptyDropped(s, g, cls == "eof"); ok {
 				how := "stuck in ch.sending for ever (nothing was queued after it)"
 				if first < len(s)-1 {
 					how = "overwritten by the next queued message"
